@@ -88,6 +88,9 @@ func (g *c08gen) flow() *refFlow {
 		}
 		lo := 1 + g.c(60000, "plo")
 		hi := lo + g.c(90, "pw")
+		if g.c(8, "top-of-port-space") == 1 {
+			lo, hi = 65535-(hi-lo), 65535 // the range ends at the last port
+		}
 		return fmt.Sprintf("%d-%d", lo, hi), [2]int{lo, hi}
 	}
 	switch g.c(3, "portside") {
